@@ -552,7 +552,9 @@ def adaptive_weights(yk, eigvals, sides='onesided', max_iter=150):
         cfn = np.sum(cfn, axis=0)
         # there seem to be some pathological freqs sometimes ..
         # this should be a good heuristic
-        if np.percentile(cfn**2, 95) < 1e-12:
+        # cfn has units of 1 / power: scale by the variance estimate, so that
+        # convergence does not depend on the units of the signal
+        if np.percentile((cfn * var_est)**2, 95) < 1e-12:
             break
     else:  # If you have reached maximum number of iterations
         # Issue a warning and return non-converged weights:
